@@ -21,6 +21,8 @@ replay = common.generic_replay
 SPECS_QUICK = ['', 'a', 'A', 'm', 'h', '!s', 'r', 'aAmh', 'A!s', 'ar', 'mh!sr', '!b', '!z', '!x', 'Ar']
 FLAGS = ['a', 'A', 'm', 'h', '!s', 'r', '!b', '!z', '!x']
 WRITTEN_TEXTS = []
+UNREADABLE_SPECIAL = []
+ORIGIN = {}          # written text (without the CXSMILES block) -> (name, molecule, spec, text, written order)
 
 
 def all_specs():
@@ -453,7 +455,8 @@ def special_molecules():
     for smi in SPECIAL:
         try:
             m = smiles(smi)
-        except Exception:
+        except Exception as e:
+            UNREADABLE_SPECIAL.append((smi, f'{type(e).__name__}: {e}'))
             continue
         out.append((smi, m))
     return out
@@ -486,6 +489,51 @@ def api_molecules():
     for k in range(1, 7):
         m.add_bond(k, k % 6 + 1, 4)
     out.append(('api:borabenzene', m))
+    out.extend(many_ring_molecules())
+    return out
+
+
+MANY_RINGS = set()
+
+
+def many_ring_molecules():
+    """molecules whose traversal keeps ten and more rings open at once (two-digit %NN closure numbers directly after plain, unbracketed
+    atoms), built through the editing API so that they exist whatever the reader does with such strings: ladders numbered along their
+    rails (with the atom numbers as weights every rung is open at the same time), one with boron / nitrogen rails (every one-letter
+    atom class of the tokenizer in front of %NN), square-grid sheets"""
+    from chython import MoleculeContainer
+    out = []
+
+    def ladder(n, syms):
+        m = MoleculeContainer()
+        for k in range(1, 2 * n + 1):
+            m.add_atom(syms[(k - 1) % len(syms)], k)
+        for k in range(1, n):
+            m.add_bond(k, k + 1, 1)
+            m.add_bond(n + k, n + k + 1, 1)
+        for k in range(1, n + 1):
+            m.add_bond(k, 2 * n + 1 - k, 1)          # rungs nested like parentheses: all open at the far end of the first rail
+        return m
+    for n, syms, tag in ((11, 'C', 'C'), (13, 'C', 'C'), (16, 'C', 'C'), (12, 'CB', 'CB'), (12, 'CNB', 'CNB')):
+        try:
+            out.append((f'api:ladder:{n}:{tag}', ladder(n, syms)))
+        except Exception:
+            continue
+    for rows, cols in ((4, 10), (3, 12)):
+        m = MoleculeContainer()
+        num = lambda r, c: r * cols + c + 1      # noqa: E731
+        for r in range(rows):
+            for c in range(cols):
+                m.add_atom('C', num(r, c))
+        for r in range(rows):
+            for c in range(cols):
+                if c + 1 < cols:
+                    m.add_bond(num(r, c), num(r, c + 1), 1)
+                if r + 1 < rows:
+                    m.add_bond(num(r, c), num(r + 1, c), 1)
+        out.append((f'api:sheet:{rows}x{cols}', m))
+    for name, _ in out:
+        MANY_RINGS.add(name)
     return out
 
 
@@ -523,7 +571,10 @@ def pool(ck):
     from chython import smiles
     rng = random.Random(f'{ck.seed}:c02pool')
     quick = ck.tier == 'quick'
+    del UNREADABLE_SPECIAL[:]
     mols = special_molecules() + api_molecules() + history_molecules() + macro_pool(ck)
+    ck.count('pool:special-smiles-the-reader-refuses', len(UNREADABLE_SPECIAL))
+    ck.extra['unreadable_special_smiles'] = UNREADABLE_SPECIAL[:10]
     from rdkit import RDLogger
     RDLogger.DisableLog('rdApp.*')
     forced = []
@@ -629,6 +680,7 @@ def corr_writer(ck, mols):
             local.append(case_term(f'm{i}', wdone[wkey], f't{i}', spec, ob, full=(n_cases % 16 == 0), ev=(n_cases % 4 == 1), m=m))
             meta.append((name, m, spec, ob['text']))
             WRITTEN_TEXTS.append(ob['text'])
+            ORIGIN.setdefault(ob['text'].split(' ')[0], (name, m, spec, ob['text'], list(ob['order'])))
             if n_cases % 5 == 2 or name in CLOSURE_HEAVY:
                 mt2 = mid_term(f'm{i}', wdone[wkey], spec, ob)
                 if mt2 is not None:
@@ -652,9 +704,9 @@ def corr_writer(ck, mols):
             if len(set(ob['w'].values())) < len(ob['w']) and 'r' not in spec:
                 ck.count('writer:weight-ties')
         # caller-supplied weights (non-random mode): special molecules and every 9th other one
-        if name in SPECIAL_SET or i % 9 == 0:
+        if name in SPECIAL_SET or name in MANY_RINGS or i % 9 == 0:
             recipes = weight_recipes(m, rng)
-            for rname, w in (recipes if name in CLOSURE_HEAVY else rng.sample(recipes, 1)):
+            for rname, w in (recipes[:2] if name in MANY_RINGS else recipes if name in CLOSURE_HEAVY else rng.sample(recipes, 1)):
                 spec = rng.choice(['', 'a', 'h', 'A', 'm', '!s', 'ah'])
                 try:
                     ob = observe_custom(m, w, spec)
@@ -666,6 +718,7 @@ def corr_writer(ck, mols):
                 local.append(case_term(f'm{i}', wn, f't{i}', spec, ob, ev=name in CLOSURE_HEAVY, m=m))
                 meta.append((name, m, f'weights={rname} {spec}', ob['text']))
                 WRITTEN_TEXTS.append(ob['text'])
+                ORIGIN.setdefault(ob['text'].split(' ')[0], (name, m, spec, ob['text'], list(ob['order'])))
                 mt2 = mid_term(f'm{i}', wn, spec, ob)
                 if mt2 is not None:
                     local.append(mt2)
@@ -1071,11 +1124,12 @@ def known_class(m, spec):
     return keys
 
 
-def roundtrip(ck, name, m, spec, seed, rd_ref=None, weights=None):
-    """write in one style, read back, compare along the written order. returns True when a violation was reported"""
+def roundtrip(ck, name, m, spec, seed, rd_ref=None, weights=None, given=None):
+    """write in one style, read back, compare along the written order. returns True when a violation was reported.
+    given = (text, order): a text the writer already produced for m (the correspondence keeps them) instead of writing again"""
     from chython import smiles
     try:
-        text, order = written(m, spec, seed, weights)
+        text, order = given if given is not None else written(m, spec, seed, weights)
     except Exception as e:
         ck.counterexample(f'write-raises:{name}:{spec}', f'format(mol, {spec!r}) raises {type(e).__name__}: {e}', {'molecule': name, 'spec': spec},
                           type(e).__name__, 'a SMILES string', 'write -> read round trip',
@@ -1188,7 +1242,7 @@ def search_roundtrip(ck, mols, n_random, full=False):
         for k in range(n_random):
             spec = 'r' + rng.choice(['', 'a', 'h', 'A', 'm', 'ah'])
             found += roundtrip(ck, name, m, spec, f'{ck.seed}:{i}:{k}', ref)
-        if name in SPECIAL_SET or i % 4 == 0:
+        if name in SPECIAL_SET or name in MANY_RINGS or i % 4 == 0:
             for rname, w in weight_recipes(m, rng):
                 found += roundtrip(ck, name, m, rng.choice(['', 'a', 'h', 'A', 'm', 'ah']), 0, ref, weights=w)
         for f_ in mol_features(m):
@@ -1791,7 +1845,15 @@ def directed_search(ck, bad_writer, bad_reader, mols):
                 around.append((name + '#renumbered', corpus.renumber(m, rng)))
             except Exception:
                 pass
-    # texts on which the tokenizer models disagree: strings that chython itself wrote must still be readable
+    # texts on which the tokenizer models disagree: a text the WRITER produced in the correspondence goes back through the real reader
+    # and is compared with the molecule it was written for
+    n_given = 0
+    for kind, s in bad_reader:
+        if kind == 'tokenize' and s in ORIGIN and n_given < 40:
+            name, m, spec, text, order = ORIGIN[s]
+            n_given += 1
+            ck.count('directed:written-text-reread')
+            found += roundtrip(ck, name, m, spec, 0, None, given=(text, order))
     for kind, s in bad_reader[:200]:
         try:
             m = smiles(s if kind == 'tokenize' else f'[{s}]')
